@@ -205,9 +205,10 @@ pub fn run(ctx: Ctx) -> ! {
         crate::fail("C34 vacuous: no accepted case with native assets");
     }
     found.flush(&ctx);
-    let mut cov = sum.coverage(
-        "TxLab space (see C33); the oracle runs on every ACCEPTED case: exact per-asset balance over distinct spent inputs + mint vs outputs + fee (Byron: inputs - outputs >= min fee); non-trivial = decoded by pallas-traverse, distinct by Blake2b of (tx, UTxO, environment)",
-    );
+    let mut cov = sum.coverage(&format!(
+        "TxLab space: every base of every era, every single deviation and every pair of deviations of different dimensions ({}); the oracle runs on every ACCEPTED case: exact per-asset balance over distinct spent inputs + mint vs outputs + fee (Byron: inputs - outputs >= min fee); non-trivial = decoded by pallas-traverse, distinct by Blake2b of (tx, UTxO, environment)",
+        bounds.describe()
+    ));
     cov.insert("accepted_checked".into(), json!(checked.load(Ordering::Relaxed)));
     cov.insert("accepted_checked_with_assets".into(), json!(checked_assets.load(Ordering::Relaxed)));
     cov.insert("findings".into(), json!(found.summary()));
